@@ -278,6 +278,7 @@ CONFIGS = {
 
 
 def parse_name(name):
+    name = name.replace('+debuglog', '')
     head, sh = name.split(':')
     fault = None
     if '+drop' in head and '+dropd' not in head:
@@ -316,8 +317,19 @@ def _sched_response_classes():
 def shard(args):
     kind, shape, broadcast, bound = args[:4]
     fault = args[4] if len(args) > 4 else None
+    debug = len(args) > 5 and args[5]
     acc = Acc()
+    if debug:
+        # the same exploration with the library's debug logging switched on
+        from harness.repo import DebugLogging
+        with DebugLogging():
+            return _shard(acc, kind, shape, broadcast, bound, fault, '+debuglog')
+    return _shard(acc, kind, shape, broadcast, bound, fault, '')
+
+
+def _shard(acc, kind, shape, broadcast, bound, fault, suffix):
     name = '%s%s%s:%dx%d' % (kind, '+broadcast' if broadcast else '', ('+drop%d' % fault[1] if fault[0] == 'drop-first' else '+' + fault[0].split('-')[0]) if fault else '', shape[0], shape[1])
+    name = name.replace(':', suffix + ':')
     hs = []
 
     def make(s):
@@ -356,6 +368,8 @@ def run(tier, seed):
             if tier == 'thorough':
                 shards.append((k, (3, 1), False, 2, ('drop-first', retries)))
                 shards.append((k, (2, 2), False, 3, ('drop-first', retries)))
+    shards.append(('tcp', (2, 1), False, 2, None, True))
+    shards.append(('serial-rtu', (2, 1), False, 2, None, True))
     acc = par.run_shards(shard, shards)
     he = None
     if acc.count('wire_orders') < 2 * len(shards) - 2:
@@ -376,8 +390,15 @@ def replay(w):
     name = w['config']
     kind, shape, bc, fault = parse_name(name)
     s = sched.Sched(w['schedule'], 3000)
-    h = Harness(s, kind, shape, bc, fault)
-    s.run()
-    h.close()
+    if '+debuglog' in name:
+        from harness.repo import DebugLogging
+        with DebugLogging():
+            h = Harness(s, kind, shape, bc, fault)
+            s.run()
+            h.close()
+    else:
+        h = Harness(s, kind, shape, bc, fault)
+        s.run()
+        h.close()
     judge(acc, s, h, name, 9)
     return bool(acc.violations), '\n'.join('%s: %s' % (v['sig'], v['msg']) for v in acc.violations) + '\nlog: %r' % (h.log,)
